@@ -492,6 +492,165 @@ def match_snippet(sc) -> str:
             "[0,var,i] element pulled from a generator domain, [2,obj,field] field read, [4,obj] bool(obj)")
 
 
+# ------------------------------------------------------------------ flatten over one-shot iterators (implementation only)
+class _LoggedAs:
+    """as _Logged with an explicit attribute id"""
+
+    def __init__(self, name, aid):
+        self.name, self.slot, self.aid = name, "_v_" + name, aid
+
+    def __get__(self, obj, cls):
+        if obj is None:
+            return self
+        LOG.append([2, obj.oid, self.aid])
+        return obj.__dict__[self.slot]
+
+    def __set__(self, obj, value):
+        obj.__dict__[self.slot] = value
+
+
+class LH(LP):
+    """a holder: [stream] is a one-shot iterator over objects (a logging generator)"""
+    stream = _LoggedAs("stream", 6)
+
+
+def gen_flat_scenario(rng) -> dict:
+    """shape "direct": item = flatten(<generator>); shape "attr": h = let(LH, <generator>), item = flatten(h.stream)"""
+    shape = rng.choice(["direct", "direct", "attr"])
+    nobj = 0
+
+    def objs(n):
+        nonlocal nobj
+        out = [{"id": 10 + nobj + i, "a": rng.randint(0, 2), "b": rng.randint(0, 2)} for i in range(n)]
+        nobj += n
+        return out
+
+    sc = {"shape": shape}
+    if shape == "direct":
+        sc["streams"] = [objs(rng.randint(1, 6))]
+    else:
+        sc["holders"] = [{"id": 1 + i, "a": rng.randint(0, 2)} for i in range(rng.randint(1, 3))]
+        sc["streams"] = [objs(rng.randint(0, 4)) for _ in sc["holders"]]
+
+    def atom():
+        return ["cmp", rng.choice(list(eqlgen.OPS)), rng.choice(["a", "b"]), rng.randint(0, 2)]
+
+    r = rng.random()
+    if r < 0.4:
+        sc["cond"] = atom()
+    elif r < 0.6:
+        sc["cond"] = ["and", atom(), atom()]
+    elif r < 0.8:
+        sc["cond"] = ["or", atom(), atom()]
+    else:
+        sc["cond"] = ["not", atom()]
+    sc["sel"] = rng.choice(["item", "item", "item.a", "both"]) if shape == "direct" else rng.choice(["item", "h+item", "item.a"])
+    return sc
+
+
+def run_flat(sc, n: Optional[int]) -> Dict[str, Any]:
+    from krrood.entity_query_language.entity import let, entity, set_of, and_, or_, not_, flatten
+    from krrood.entity_query_language.quantify_entity import an
+    del LOG[:]
+    try:
+        streams = [[LP(o["id"], o["a"], o["b"], []) for o in st] for st in sc["streams"]]
+        if sc["shape"] == "direct":
+            item = flatten(logged_domain(5, streams[0]))
+            h = None
+        else:
+            holders = []
+            for j, (hd, st) in enumerate(zip(sc["holders"], streams)):
+                ho = LH(hd["id"], hd["a"], 0, [])
+                ho.stream = logged_domain(5 + j, st)
+                holders.append(ho)
+            del LOG[:]
+            h = let(LH, logged_domain(0, holders), name="h")
+            item = flatten(h.stream)
+
+        def cond(c):
+            if c[0] == "cmp":
+                l = getattr(item, c[2])
+                return {"==": l.__eq__, "!=": l.__ne__, "<": l.__lt__, "<=": l.__le__, ">": l.__gt__, ">=": l.__ge__}[c[1]](c[3])
+            if c[0] == "and":
+                return and_(cond(c[1]), cond(c[2]))
+            if c[0] == "or":
+                return or_(cond(c[1]), cond(c[2]))
+            return not_(cond(c[1]))
+
+        c = cond(sc["cond"])
+        if sc["sel"] == "item":
+            q, sels, single = an(entity(item, c)), [item], True
+        elif sc["sel"] == "item.a":
+            e = item.a
+            q, sels, single = an(entity(e, c)), [e], True
+        elif sc["sel"] == "both":
+            e = item.a
+            q, sels, single = an(set_of([item, e], c)), [item, e], False
+        else:
+            q, sels, single = an(set_of([h, item], c)), [h, item], False
+        it = q.evaluate()
+        build = list(LOG)
+        del LOG[:]
+        _pull(it, n, sels, single)
+        out = {"build": build, "log": list(LOG)}
+        it.close()
+        return out
+    except Exception as e:  # noqa
+        return {"exc": type(e).__name__, "log": list(LOG)}
+
+
+def run_flat_all(sc) -> Dict[str, Any]:
+    full = run_flat(sc, None)
+    if "exc" in full:
+        return {"exc": full["exc"]}
+    nrows = len([e for e in full["log"] if e[0] == 3])
+    build = list(full["build"])
+    ks = []
+    for n in range(nrows + 2):
+        r = run_flat(sc, n)
+        if "exc" in r:
+            return {"exc": r["exc"]}
+        build += r["build"]
+        ks.append(r["log"])
+    return {"build": build, "full": full["log"], "ks": ks}
+
+
+def _flat_chunk(scs):
+    return [run_flat_all(sc) for sc in scs]
+
+
+def run_flat_many(scs: List[dict], chunk: int = 40) -> List[Any]:
+    parts = [scs[i:i + chunk] for i in range(0, len(scs), chunk)]
+    out: List[Any] = []
+    if not parts:
+        return out
+    with ProcessPoolExecutor(max_workers=min(eqlcheck.N_WORKERS, len(parts))) as ex:
+        for r in ex.map(_flat_chunk, parts):
+            out += r
+    return out
+
+
+def coq_flat(scs: List[dict], impls: List[dict]) -> List[int]:
+    ex = []
+    for sc, i in zip(scs, impls):
+        gens = []
+        for j, st in enumerate(sc["streams"]):
+            gens.append(f"({5 + j}%nat, [" + "; ".join(f"VO {o['id']}" for o in st) + "])")
+        if sc["shape"] == "attr":
+            gens.append("(0%nat, [" + "; ".join(f"VO {hd['id']}" for hd in sc["holders"]) + "])")
+        ks = "[" + "; ".join(g_log(l) for l in i["ks"]) + "]"
+        ex.append(f"flat_spec_code [{'; '.join(gens)}] {g_log(i['full'])} {ks}")
+    return core.coq_values(PROP, SPEC_HEADER, ex, chunk=60, tag="flat")
+
+
+def flat_snippet(sc) -> str:
+    return ("import json; from harness import c10\n"
+            f"sc = json.loads({json.dumps(json.dumps(sc))})\n"
+            "print(c10.run_flat(sc, 1))   # log after ONE result of an(entity(item, cond)) with item = flatten(<logging generator>) "
+            "(shape direct) or flatten(h.stream) (shape attr): [0,g,i] element i pulled from iterator g (5.. = the flattened iterators, "
+            "0 = the holders' domain), [1,g] iterator finished, [2,obj,attr] attribute read (6 = stream), [3,row] result")
+
+
 # ------------------------------------------------------------------ log <-> sx
 def canon_log(log) -> list:
     """the nested-int form show_trace prints"""
@@ -678,6 +837,8 @@ def run(tier: str, seed: int, replay=None) -> int:
     rep.assume.append("match-API constructions have NO model: silent construction is observed on the real engine only. Spec bit 8 (no read-ahead) "
                       "is proved of the model for the classes attr_only_strict / attr_only_len (C10_no_read_ahead) and the re-evaluation bit 4 for "
                       "queries without exists (C10_reeval_quiet); for exists queries bit 4 is checked on the logs only")
+    rep.assume.append("flatten over one-shot iterators (directly and behind an attribute) has NO model (Eql/Trace.v has no iterator-valued data): "
+                      "silent construction, prefix, pull order and no read-ahead are evaluated on the real engine's logs only")
     rep.assume.append("the log entries Frame / Note / Pass of the model are bookkeeping (scratch list of an Exists call, start of a Union's second "
                       "pass): no user code runs, show_trace drops them before the comparison")
     rep.rule = ("four families, all seeded. (1) random quantifier-free queries (harness/eqlgen.py, profile c01): 1-3 variables over object / "
@@ -688,14 +849,15 @@ def run(tier: str, seed: int, replay=None) -> int:
                 "let-variables, built after the first evaluation; log compared with the model's trace_seq. (3) construction through the match API: "
                 "an(entity_matching(T, generator)(kw...)) with literals, let-variables over generator domains, nested match / select / match_any / "
                 "match_all as keyword values; the construction log must be empty. (4) 150 (quick) / 2500 (thorough) queries with exists / for_all "
-                "(profile quant) are part of families 1 and 2 since the model covers them. "
+                "(profile quant) are part of families 1 and 2 since the model covers them. (5) flatten: item = flatten(<logging generator>) or "
+                "flatten(h.stream) with h over holders whose attribute is such a generator, one-variable conditions over item, every n. "
                 "non-trivial = at least one domain element was pulled (families 1, 2, 4) / a keyword value is a variable (family 3)")
     ok_spec, log = core.coq_make(["Base/Sx.vo", "Eql/TraceSpec.vo"])
     rep.oblige("build:spec", ok_spec, "" if ok_spec else core.first_error(log))
     model_ok = core.standard_proof_steps(rep, PROP, ["Props/C10.vo"])
     from translator import pins
     pins.oblige(rep, str(core.REPO), "eql", "the event-log model (Eql/Trace.v)")
-    pins.oblige(rep, str(core.REPO), "c10", "the event-log model (Eql/Trace.v: AND / ElseIf / Union / Not, optimize_or, domain set-up) and the silent-construction scenarios")
+    pins.oblige(rep, str(core.REPO), "c10", "the event-log model (Eql/Trace.v: AND / ElseIf / Union / Not, optimize_or, domain set-up), the silent-construction and the flatten scenarios")
     if tier == "thorough" and model_ok:
         rc, out = core.sh(["timeout", "900", "coqchk", "-silent", "-o", "-Q", ".", "Krrood", "Krrood.Props.C10"], cwd=core.COQ, timeout=930)
         rep.oblige("coqchk:Props/C10.vo", rc == 0 and "Axioms: <none>" in out.replace("\n", " ").replace("  ", " "), out.strip()[-400:])
@@ -924,6 +1086,44 @@ def run(tier: str, seed: int, replay=None) -> int:
     if len(mbad) > 2:
         rep.note(f"{len(mbad)} match-API constructions ran user code (2 smallest reported)")
 
+    # ---- flatten over one-shot iterators (directly, and behind an attribute): Spec predicates on the implementation's logs
+    if replay is None:
+        rf = core.Rng(seed * 1000003 + 83)
+        flat_scs = [gen_flat_scenario(rf.fork(i)) for i in range(120 if tier == "quick" else 1500)]
+    elif family == "flatten":
+        flat_scs = [replay["scenario"]]
+    else:
+        flat_scs = []
+    fimpl = run_flat_many(flat_scs)
+    fran = [k for k, i in enumerate(fimpl) if "exc" not in i]
+    fcodes = dict(zip(fran, coq_flat([flat_scs[k] for k in fran], [fimpl[k] for k in fran]))) if fran else {}
+    fdist = {"scenarios": len(flat_scs), "direct": 0, "attr": 0, "pairs": 0, "exceptions": len(flat_scs) - len(fran), "rows_ge_2": 0}
+    fbad = []
+    for k, sc in enumerate(flat_scs):
+        fdist[sc["shape"]] += 1
+        i = fimpl[k]
+        if "exc" in i:
+            fbad.append((sc, 32, i))
+            continue
+        fdist["rows_ge_2"] += int(len(i["ks"]) >= 4)
+        for n, l in enumerate(i["ks"]):
+            fdist["pairs"] += 1
+            rep.count(json.dumps(["flat", sc, n], sort_keys=True), n >= 1 and any(e[0] == 0 and e[1] >= 5 for e in l))
+        code = fcodes[k] | (16 if i["build"] else 0)
+        if code:
+            fbad.append((sc, code, i))
+    for sc, code, i in sorted(fbad, key=lambda t: len(json.dumps(t[0])))[:2]:
+        rep.violation({"kind": "counterexample", "family": "flatten", "scenario": sc, "spec_code": code,
+                       "spec_misses": explain(code) + ([f"raised {i['exc']}"] if "exc" in i else []),
+                       "impl": {kk: (canon_log(v) if kk in ("full", "build") else [canon_log(l) for l in v] if kk == "ks" else v) for kk, v in i.items()},
+                       "python": flat_snippet(sc),
+                       "explanation": "item = flatten(<one-shot logging generator>) (shape direct) or flatten(h.stream) with h over holders whose attribute "
+                                      "stream is such a generator (shape attr); ks[n] = log after pulling n results from a freshly built an(...).evaluate(). "
+                                      "events [0,g,i] element i pulled from iterator g (5.. flattened iterators, 0 the holders' domain), [1,g] iterator finished, "
+                                      "[2,obj,attr] attribute read (6 = stream), [3,row] result. No model: the Spec predicates are evaluated on the real engine's logs"})
+    if len(fbad) > 2:
+        rep.note(f"{len(fbad)} flatten scenarios miss the Spec (2 smallest reported)")
+    rep.extra["flatten"] = fdist
     rep.extra["reevaluation"] = sdist
     rep.extra["match_construction"] = mdist
 
